@@ -1,5 +1,6 @@
 #![allow(dead_code)]
-mod vocab; mod tree; mod val; mod call; mod render; mod refsem; mod expect; mod engine; mod meta; mod agg; mod loops; mod history; mod conv; mod fclass; mod functions; mod cross;
+mod vocab; mod tree; mod val; mod call; mod render; mod refsem; mod expect; mod engine; mod meta; mod agg;
+mod ast; mod loops; mod history; mod conv; mod fclass; mod functions; mod cross;
 
 use engine::*;
 use serde_json::{json, Value};
@@ -23,7 +24,7 @@ fn write_stats(job: &Value, out: &mut Out, done: bool) {
     let s = &out.stats;
     let v = json!({"done": done, "items": s.items, "calls": s.calls, "compared": s.compared, "matched": s.matched, "not_asserted": s.not_asserted,
         "not_asserted_rules": s.not_asserted_rules, "findings": s.findings, "by_cat": s.by_cat, "distinct": s.distinct.len(), "nontrivial": s.nontrivial.len(),
-        "events": s.events, "max_ticks_ratio": s.max_ticks_ratio, "max_ticks": s.max_ticks, "samples": s.samples, "metamorphic_pairs": s.metamorphic_pairs,
+        "events": s.events, "max_ticks_ratio": s.max_ticks_ratio, "max_ticks": s.max_ticks, "samples": s.samples, "metamorphic_pairs": s.metamorphic_pairs, "trees_compared": s.trees_compared,
         "profile": out.profile});
     let mut f = std::fs::OpenOptions::new().create(true).append(true).open(job["stats"].as_str().unwrap()).unwrap();
     let _ = writeln!(f, "{}", v);
@@ -450,6 +451,7 @@ fn main() {
         let ph = args.get(4).and_then(|c| val::parse_canon(c)).unwrap_or_else(|| call::default_placeholder(e));
         let (o, t) = call::call(e, &args[3], &ph);
         println!("{} ticks={}", o.show(), t.total());
+        if std::env::var("SHOW_TREE").is_ok() { println!("tree: {:?}", call::last_tree().map(|g| ast::shape_of_debug(&g).map(|v| v.to_string()).unwrap_or(g))); }
     } else {
         eprintln!("usage: sc_harness run <job.json> | one <e> <expr>");
         std::process::exit(2);
